@@ -63,7 +63,11 @@ release (and any blocking in between) used to destroy a stored token (old theore
 `Park.token_survives_blocking`, `Park.op_frame`, `Park.step_frame`, `Release.keeps_token`,
 `Park.release_keeps_token`, and an `unpark` that comes before the `park` is never lost:
 `Park.unpark_then_park_never_blocks`.  `Notify::notify` no longer goes through `Thread::unpark`: it wakes a
-blocked waiter and hands out no token: `Notify.wakes_blocked_waiter_only`.  F20 — the epilogue of a spawned
+blocked waiter and hands out no token: `Notify.wakes_blocked_waiter_only`.  F26 — `Notify::notify` used to join
+the notifier's causality into EVERY other thread whose pending operation names the object, also into another
+notifier about to `notify` the same object (which then did not race with what the first notifier had done); it
+now only wakes, and the waiter acquires the notifiers' release from the object's `sync` when it returns from
+`wait`: `Notify.notify_acquires_nothing`, `Wait.notifier_hb`.  F20 — the epilogue of a spawned
 thread used to notify the `JoinHandle` BEFORE `drop_locals` and the thread-local destructors; it now runs them
 first: `Join.after_destructors`, `Join.after_exit`.
 -/
@@ -81,8 +85,9 @@ open C12 Sy C07 C08 C17
 
 /-- `Notify::notify` after its branch point: `notified := true`, the notifier's clocks are released
 into the object (`Sync.store … .rel`), and every OTHER thread whose pending operation is on the
-object joins the notifier's causality and is woken if it is blocked (`Thread.wake`; not `Thread::unpark`:
-see `Notify.wakes_blocked_waiter_only`). -/
+object is woken if it is blocked (`Thread.wake`; not `Thread::unpark`: see
+`Notify.wakes_blocked_waiter_only`); nothing is acquired by the threads woken (repair of finding F26:
+`Notify.notify_acquires_nothing`). -/
 theorem Notify.notify_effect (w : World) (o : Nat) (s : NotifySt)
     (h : w.exec.objs[o]? = some (.notify s)) :
     w.notifyEffect o = .ok
@@ -92,23 +97,20 @@ theorem Notify.notify_effect (w : World) (o : Nat) (s : NotifySt)
           threads := { w.exec.threads with threads :=
             (w.exec.threads.threads.mapIdx fun i th =>
               if i = w.tid then th
-              else if th.operation.any (fun op => op.obj == o) then
-                ({ th with causality := th.causality.join w.ths.activeT.causality }).wake
+              else if th.operation.any (fun op => op.obj == o) then th.wake
               else th) } } } ∧
     w.ths.caus.le (s.sync.store w.ths.activeT.released w.ths.caus .rel).hb :=
   ⟨notifyEffect_eq h, (le_store_rel _ _ _).2.2⟩
 
 /-- What `notify` does to the threads, entry by entry.  A thread OTHER than the notifier whose pending
-operation is on the object joins the notifier's causality and goes through `Thread.wake`; every other entry
+operation is on the object goes through `Thread.wake` (and acquires nothing); every other entry
 is unchanged.  Hence: NOBODY receives a `park` token from a `notify` (every thread's token is what it was);
 thread `i` is woken — its state changes — EXACTLY IF it is not the notifier, its pending operation is on the
 object and it is blocked, and then it is `runnable` and not `parked`. -/
 theorem Notify.wakes_blocked_waiter_only {w w' : World} {o : Nat} {s : NotifySt}
     (h : w.exec.objs[o]? = some (.notify s)) (hr : w.notifyEffect o = .ok w') (i : Nat) :
     w'.ths.get i =
-      (if i ≠ w.tid ∧ ∃ op, (w.ths.get i).operation = some op ∧ op.obj = o then
-        ({ w.ths.get i with
-            causality := (w.ths.get i).causality.join w.ths.activeT.causality }).wake
+      (if i ≠ w.tid ∧ ∃ op, (w.ths.get i).operation = some op ∧ op.obj = o then (w.ths.get i).wake
       else w.ths.get i) ∧
     (w'.ths.get i).token = (w.ths.get i).token ∧
     ((w'.ths.get i).state ≠ (w.ths.get i).state ↔
@@ -118,6 +120,42 @@ theorem Notify.wakes_blocked_waiter_only {w w' : World} {o : Nat} {s : NotifySt}
       (w'.ths.get i).state = .runnable ∧ (w'.ths.get i).parked = false) ∧
     ((w'.ths.get i).state = (w.ths.get i).state → (w'.ths.get i).parked = (w.ths.get i).parked) :=
   ⟨notifyEffect_get h hr i, notifyEffect_wakes h hr i⟩
+
+/-- REPAIRED finding F26: `Notify::notify` acquires nothing for anybody.  Every thread — in particular every
+thread OTHER than the notifier, whatever its pending operation: a waiter, or another notifier whose own pending
+`notify` names the same object — has after `notifyEffect` the `causality` it had before (and the same `released`,
+`unparkCaus`, pending `operation` and `park` token); the only thing that changes in the thread table is the
+`state` of a BLOCKED thread other than the notifier whose pending operation names the object (it becomes
+`runnable` and is not `parked`); a thread whose state does not change is the entry it was.  The notifier → waiter
+edge goes through the object's `sync` instead: `Wait.notifier_hb`. -/
+theorem Notify.notify_acquires_nothing {w w' : World} {o : Nat} {s : NotifySt}
+    (h : w.exec.objs[o]? = some (.notify s)) (hr : w.notifyEffect o = .ok w') (i : Nat) :
+    (w'.ths.get i).causality = (w.ths.get i).causality ∧
+    (w'.ths.get i).released = (w.ths.get i).released ∧
+    (w'.ths.get i).unparkCaus = (w.ths.get i).unparkCaus ∧
+    (w'.ths.get i).operation = (w.ths.get i).operation ∧
+    (w'.ths.get i).token = (w.ths.get i).token ∧
+    ((w'.ths.get i).state ≠ (w.ths.get i).state ↔
+      i ≠ w.tid ∧ (∃ op, (w.ths.get i).operation = some op ∧ op.obj = o) ∧
+        (w.ths.get i).state = .blocked) ∧
+    ((w'.ths.get i).state ≠ (w.ths.get i).state →
+      (w'.ths.get i).state = .runnable ∧ (w'.ths.get i).parked = false) ∧
+    ((w'.ths.get i).state = (w.ths.get i).state → w'.ths.get i = w.ths.get i) := by
+  obtain ⟨c1, c2, c3, c4⟩ := notifyEffect_caus h hr i
+  obtain ⟨k1, k2, k3, _⟩ := notifyEffect_wakes h hr i
+  refine ⟨c1, c2, c3, c4, k1, k2, k3, ?_⟩
+  rw [notifyEffect_get h hr i]
+  split
+  · unfold Thread.wake
+    split
+    · next hb =>
+      intro he
+      have hb' : (w.ths.get i).state = .blocked := by simpa [Thread.isBlocked] using hb
+      have he' : (w.ths.get i).setRunnable.state = (w.ths.get i).state := he
+      rw [hb'] at he'
+      cases he'
+    · exact fun _ => rfl
+  · exact fun _ => rfl
 
 /-- first half of `Notify::wait` when no spurious return is possible (`spurious = false` or
 `did_spur = true`): the path is not consulted; the waiter branches on the object and is blocked
@@ -212,7 +250,9 @@ theorem Notify.blocks_without_flag (w : World) (o : Nat) (s : NotifySt)
 
 /-- `Wait.notifier_hb` for `Notify` (and hence `join`): `notify` by N in any world, then any steps
 of the object's life, then the second half of `wait` by W returns: W's causality afterwards is
-above N's causality at the `notify`. -/
+above N's causality at the `notify`.  The edge goes through the object's `sync` (released into by
+`notifyEffect`, acquired by `notifyWait2`): `notifyEffect` itself hands nothing to the thread it wakes
+(`Notify.notify_acquires_nothing`). -/
 theorem Wait.notifier_hb {wN wN' wW wW' : World} {oN oW : Nat} {s0 s1 s2 : NotifySt}
     (h0 : wN.exec.objs[oN]? = some (.notify s0)) (hn : wN.notifyEffect oN = .ok wN')
     (h1 : wN'.exec.objs[oN]? = some (.notify s1)) (hsteps : NotifySteps s1 s2)
